@@ -37,6 +37,9 @@ def switch_lists(draw, max_switches=10, max_gap=40):
   return out
 
 
+TS_POOL = [1, 1.5, 2, 1.25, 3, 4]
+
+
 @st.composite
 def recv_ops(draw, n, counter, nmetrics=5, nts=4):
   ops = []
@@ -44,7 +47,8 @@ def recv_ops(draw, n, counter, nmetrics=5, nts=4):
     k = draw(st.integers(0, 9))
     if k <= 6:
       counter[0] += 1
-      ops.append(['store', draw(st.sampled_from(METRICS[:nmetrics])), draw(st.integers(1, nts)), counter[0]])
+      # whole seconds and sub-second timestamps inside them (distinct datapoints: receivers parse floats)
+      ops.append(['store', draw(st.sampled_from(METRICS[:nmetrics])), draw(st.sampled_from(TS_POOL[:nts + 2])), counter[0]])
     elif k <= 8:
       ops.append(['query', draw(st.sampled_from(METRICS[:nmetrics]))])
     else:
